@@ -152,7 +152,11 @@ func injectLoops(repo, rel string, items []*Item, warn func(string)) (map[string
 				if it.Options["localinv"] != "" {
 					ordArg += 1000 // the invariant is used only by the function's own contract; other harnesses unroll the loop
 				}
-				text := fmt.Sprintf(" verifspec.LoopInv(%d, func() bool { return %s }, func() int { return %s }); ", ordArg, strings.Join(invs, " && "), desugar(dec))
+				invText := strings.Join(invs, " && ")
+				if it.Logical {
+					invText = lowerBoolLine(invText)
+				}
+				text := fmt.Sprintf(" verifspec.LoopInv(%d, func() bool { return %s }, func() int { return %s }); ", ordArg, invText, desugar(dec))
 				edits = append(edits, edit{off: p, end: p, text: text})
 			}
 			for _, g := range it.Ghosts {
